@@ -1,10 +1,13 @@
 (* C08, package decl - declarators build exactly the C11 6.7.6 type, with psABI size and alignment.
    Only statements closed by [exact] + Print Assumptions live here.
-   Spec: Spec/DeclSpec6_7_6.v (syntax, written form, derived-declarator-type-list, adjustment, sizeof/_Alignof).
-   Model: Model/Declarator.v (parse.c: pointers, declarator, abstract_declarator, type_suffix, array_dimensions,
-   func_params, typename; type.c: pointer_to, array_of, func_type).
+   Spec: Spec/DeclSpec6_7_6.v (syntax, written form, derived-declarator-type-list, adjustment, sizeof/_Alignof, the
+   implementation limit [oversize]).
+   Model: Model/Declarator.v (parse.c AS REPAIRED by fbdf355, 8507b9f, 053b61b: pointers, declarator, abstract_declarator,
+   type_suffix, array_dimensions, func_params, typename; type.c: pointer_to, array_of, func_type).
    [c11_ok]: the declarator is C11 syntax (no empty parentheses, no suffix behind a parameter list, bounds >= 0,
-   void only as `(void)`).  [chibicc_ok]: no parameter list directly behind an omitted identifier, bounds < 2^31.
+   void only as `(void)`).  Update 2: the former [chibicc_ok] (no parameter list behind an omitted identifier, bounds
+   < 2^31) and [fits] (sizes < 2^31) are gone - the first is parsed correctly now, the other two became the located
+   diagnostic "array too large" ([TooLarge]), an implementation limit (C11 5.2.4.1).
    [stops rest]: the declarator is followed by "," ")" an uninvolved token or nothing. *)
 From Coq Require Import List ZArith Bool.
 From Chibicc Require Import Spec.DeclSyntax Spec.DeclSpec6_7_6 Model.Declarator
@@ -15,27 +18,31 @@ Local Open Scope Z_scope.
 
 (* declarator() run on the written form of ANY declarator (pointers with qualifiers, parentheses, arrays,
    functions with parameter lists, nested to any depth, identifier present or omitted), applied to any start
-   type, consumes exactly the declarator, returns its identifier and builds the type that C11 6.7.6 assigns to
-   that identifier (qualifiers, which chibicc does not represent, erased).  The two-pass treatment of
-   parenthesised declarators therefore nests every derivation in the right order. *)
+   type, either reports "array too large" or consumes exactly the declarator, returns its identifier and builds the
+   type that C11 6.7.6 assigns to that identifier (qualifiers, which chibicc does not represent, erased).  The
+   two-pass treatment of parenthesised declarators therefore nests every derivation in the right order. *)
 Theorem C08_decl_declarator_is_c11 : forall d m T rest,
-  c11_ok d = true -> chibicc_ok d = true -> stops rest -> shape m = unqual T ->
+  c11_ok d = true -> stops rest -> shape m = unqual T ->
+  parse_declarator (print_decl d ++ rest) m = TooLarge \/
   exists m', parse_declarator (print_decl d ++ rest) m = Ok (name_of d, m', rest) /\
              shape m' = unqual (type_of T d).
 Proof. exact declarator_is_c11. Qed.
 Print Assumptions C08_decl_declarator_is_c11.
 
-(* the exact C `Type` graph declarator() returns, for every amount of fuel above an explicit bound *)
-Theorem C08_decl_declarator_exact : forall d, c11_ok d = true -> chibicc_ok d = true ->
+(* the exact result of declarator(), for every amount of fuel above an explicit bound: the Type graph [m_apply],
+   unless one of the "array too large" tests performed on the way ([chk], dummy passes included) fires *)
+Theorem C08_decl_declarator_exact : forall d, c11_ok d = true ->
   forall fuel ty rest, stops rest -> (cost d <= fuel)%nat ->
-    declarator fuel (print_decl d ++ rest) ty = Ok (name_of d, m_apply d ty, rest).
+    declarator fuel (print_decl d ++ rest) ty
+    = if chk d ty then Ok (name_of d, m_apply d ty, rest) else TooLarge.
 Proof. exact declarator_print. Qed.
 Print Assumptions C08_decl_declarator_exact.
 
 (* abstract_declarator() - casts, sizeof(type-name), _Alignof, compound literals - does the same for every
    declarator without identifier *)
 Theorem C08_decl_abstract_declarator_is_c11 : forall d m T rest,
-  c11_ok d = true -> chibicc_ok d = true -> name_of d = None -> stops rest -> shape m = unqual T ->
+  c11_ok d = true -> name_of d = None -> stops rest -> shape m = unqual T ->
+  parse_abstract (print_decl d ++ rest) m = TooLarge \/
   exists m', parse_abstract (print_decl d ++ rest) m = Ok (m', rest) /\
              shape m' = unqual (type_of T d).
 Proof. exact abstract_declarator_is_c11. Qed.
@@ -43,7 +50,8 @@ Print Assumptions C08_decl_abstract_declarator_is_c11.
 
 (* typename(): specifiers + abstract declarator give the type named by the type name (6.7.7p2) *)
 Theorem C08_decl_typename_is_c11 : forall b d rest,
-  c11_ok d = true -> chibicc_ok d = true -> name_of d = None -> stops rest ->
+  c11_ok d = true -> name_of d = None -> stops rest ->
+  parse_typename (TBase b :: print_decl d ++ rest) = TooLarge \/
   exists m', parse_typename (TBase b :: print_decl d ++ rest) = Ok (m', rest) /\
              shape m' = unqual (type_of (TLeaf b) d).
 Proof. exact typename_is_c11. Qed.
@@ -53,72 +61,116 @@ Print Assumptions C08_decl_typename_is_c11.
    gets the type of its own declarator ADJUSTED per 6.7.6.3p7-8 (array of T -> pointer to T, function -> pointer
    to function), and `, ...` makes the function variadic *)
 Theorem C08_decl_func_params_adjusted : forall ps ret rest,
-  c11_ok_params ps = true -> chibicc_ok_params ps = true ->
+  c11_ok_params ps = true ->
+  func_params (cost_params ps) (print_params ps ++ TRParen :: rest) ret = TooLarge \/
   exists pl v, func_params (cost_params ps) (print_params ps ++ TRParen :: rest) ret = Ok (MFunc ret pl v, rest) /\
     map (fun p => shape (snd p)) pl = map unqual (param_types ps) /\
     fkind_of (is_nil pl) v = kind_of ps.
 Proof. exact func_params_is_c11. Qed.
 Print Assumptions C08_decl_func_params_adjusted.
 
-(* ty->align of the declared type is the psABI alignment; ty->size is the psABI size whenever every object along
-   the array spine is smaller than 2^31 bytes (pointer 8, array n * element for any number of dimensions);
-   an array of unknown bound stores minus the element size, chibicc's mark of an incomplete type *)
+(* NO hypothesis on sizes any more: declarator() either reports "array too large", or ty->align and ty->size of the
+   declared type are the psABI numbers (pointer 8, array n * element for any number of dimensions); an array of
+   unknown bound stores minus the element size, chibicc's mark of an incomplete type *)
 Theorem C08_decl_size_align_is_psabi : forall d b rest,
-  c11_ok d = true -> chibicc_ok d = true -> stops rest ->
+  c11_ok d = true -> leaf_in_range b = true -> stops rest ->
   let t := type_of (TLeaf b) d in
+  parse_declarator (print_decl d ++ rest) (MBase b) = TooLarge \/
   exists m, parse_declarator (print_decl d ++ rest) (MBase b) = Ok (name_of d, m, rest) /\
     shape m = unqual t /\
     (forall a, alignof t = Some a -> ty_align m = a) /\
-    (fits t = true ->
-       (forall s, sizeof t = Some s -> ty_size m = s) /\
-       (forall e s, t = TArr None e -> sizeof e = Some s -> ty_size m = - s)).
+    (forall s, sizeof t = Some s -> ty_size m = s) /\
+    (forall e s, t = TArr None e -> sizeof e = Some s -> ty_size m = - s).
 Proof. exact declarator_size_align. Qed.
 Print Assumptions C08_decl_size_align_is_psabi.
 
+(* ... and it reports "array too large" EXACTLY when some array derivation written in the declarator (parameters
+   included, before adjustment) needs more than INT32_MAX bytes, where every array has a complete element type
+   (6.7.6.2p1): never for a smaller declarator - the dummy pass cannot fire alone -, always for a bigger one *)
+Theorem C08_decl_too_large_exact : forall d b rest,
+  c11_ok d = true -> leaf_in_range b = true -> elems_ok d (TLeaf b) = true -> stops rest ->
+  (parse_declarator (print_decl d ++ rest) (MBase b) = TooLarge <-> oversize d (TLeaf b) = true).
+Proof. exact too_large_exact. Qed.
+Print Assumptions C08_decl_too_large_exact.
+
+(* both in one: beyond the limit the diagnostic, within it the C11 type with the psABI numbers *)
+Theorem C08_decl_size_or_too_large : forall d b rest,
+  c11_ok d = true -> leaf_in_range b = true -> elems_ok d (TLeaf b) = true -> stops rest ->
+  let t := type_of (TLeaf b) d in
+  if oversize d (TLeaf b)
+  then parse_declarator (print_decl d ++ rest) (MBase b) = TooLarge
+  else exists m, parse_declarator (print_decl d ++ rest) (MBase b) = Ok (name_of d, m, rest) /\
+         shape m = unqual t /\
+         (forall a, alignof t = Some a -> ty_align m = a) /\
+         (forall s, sizeof t = Some s -> ty_size m = s) /\
+         (forall e s, t = TArr None e -> sizeof e = Some s -> ty_size m = - s).
+Proof. exact declarator_size_or_too_large. Qed.
+Print Assumptions C08_decl_size_or_too_large.
+
+Theorem C08_decl_typename_size_or_too_large : forall d b rest,
+  c11_ok d = true -> name_of d = None -> leaf_in_range b = true -> elems_ok d (TLeaf b) = true -> stops rest ->
+  let t := type_of (TLeaf b) d in
+  if oversize d (TLeaf b)
+  then parse_typename (TBase b :: print_decl d ++ rest) = TooLarge
+  else exists m, parse_typename (TBase b :: print_decl d ++ rest) = Ok (m, rest) /\
+         shape m = unqual t /\
+         (forall a, alignof t = Some a -> ty_align m = a) /\
+         (forall s, sizeof t = Some s -> ty_size m = s).
+Proof. exact typename_size_or_too_large. Qed.
+Print Assumptions C08_decl_typename_size_or_too_large.
+
 (* the same starting from any type whose stored numbers are right (a typedef, a struct laid out by Model/Layout.v) *)
-Theorem C08_decl_size_align_any_base : forall d m, c11_ok d = true -> chibicc_ok d = true ->
+Theorem C08_decl_size_align_any_base : forall d m, c11_ok d = true -> chk d m = true ->
   size_ok m -> align_ok m -> size_ok (m_apply d m) /\ align_ok (m_apply d m).
 Proof. exact m_apply_size_align. Qed.
 Print Assumptions C08_decl_size_align_any_base.
 
-(* `static` / `restrict` behind "[" are skipped and change nothing *)
-Theorem C08_decl_static_restrict_ignored : forall fuel sr toks ty,
-  all_static_restrict sr = true ->
+(* if the real pass over a declarator passes every "array too large" test, so does the pass with the dummy type *)
+Theorem C08_decl_dummy_pass_never_fires_alone : forall d m, chk d m = true -> chk d dummy = true.
+Proof. exact chk_dummy. Qed.
+Print Assumptions C08_decl_dummy_pass_never_fires_alone.
+
+(* `static` and type qualifiers behind "[" are skipped, in any number and order, and change nothing *)
+Theorem C08_decl_static_quals_ignored : forall fuel sr toks ty,
+  all_static_quals sr = true ->
   array_dimensions fuel (sr ++ toks) ty = array_dimensions fuel toks ty.
-Proof. exact static_restrict_ignored. Qed.
-Print Assumptions C08_decl_static_restrict_ignored.
+Proof. exact static_quals_ignored. Qed.
+Print Assumptions C08_decl_static_quals_ignored.
 
 (* unparse / parse: every valid C11 type (no arrays of functions, no functions returning arrays or functions,
-   adjusted non-void parameter types, bounds < 2^31; not a function type if the identifier is omitted), written
-   as base type + declarator the usual way, is C11 syntax whose standard derivation gives the type back ... *)
+   adjusted non-void parameter types), written as base type + declarator the usual way, is C11 syntax whose standard
+   derivation gives the type back ... *)
 Theorem C08_decl_every_type_has_a_declarator : forall t x,
-  valid_ty t = true -> small t = true -> (x = None -> is_fun t = false) ->
+  valid_ty t = true ->
   let bd := declarator_of t x in
-  c11_ok (snd bd) = true /\ chibicc_ok (snd bd) = true /\ name_of (snd bd) = x /\
+  c11_ok (snd bd) = true /\ name_of (snd bd) = x /\
   type_of (TLeaf (fst bd)) (snd bd) = t.
 Proof. exact declarator_of_roundtrip. Qed.
 Print Assumptions C08_decl_every_type_has_a_declarator.
 
-(* ... and parse.c, run on that text, rebuilds exactly this type (declarations and type names) *)
+(* ... and parse.c, run on that text, rebuilds exactly this type (declarations and type names) or reports the limit *)
 Theorem C08_decl_unparse_parse : forall t x rest,
-  valid_ty t = true -> small t = true -> (x = None -> is_fun t = false) -> stops rest ->
+  valid_ty t = true -> stops rest ->
   let bd := declarator_of t x in
+  parse_declarator (print_decl (snd bd) ++ rest) (MBase (fst bd)) = TooLarge \/
   exists m, parse_declarator (print_decl (snd bd) ++ rest) (MBase (fst bd)) = Ok (x, m, rest) /\
             shape m = unqual t.
 Proof. exact unparse_parse. Qed.
 Print Assumptions C08_decl_unparse_parse.
 
 Theorem C08_decl_unparse_parse_typename : forall t rest,
-  valid_ty t = true -> small t = true -> is_fun t = false -> stops rest ->
+  valid_ty t = true -> stops rest ->
   let bd := declarator_of t None in
+  parse_typename (TBase (fst bd) :: print_decl (snd bd) ++ rest) = TooLarge \/
   exists m, parse_typename (TBase (fst bd) :: print_decl (snd bd) ++ rest) = Ok (m, rest) /\
             shape m = unqual t.
 Proof. exact unparse_parse_typename. Qed.
 Print Assumptions C08_decl_unparse_parse_typename.
 
 (* the two-pass trick is sound on EVERY token list: which tokens declarator() consumes, which identifier it finds
-   and whether it fails do not depend on the type handed in, so the pass with the dummy type stops exactly where
-   the real pass does (no assumption on the tokens; also for type_suffix, array_dimensions, func_params) *)
+   and how it fails do not depend on the type handed in - unless one of the two runs reports "array too large" -,
+   so the pass with the dummy type stops exactly where the real pass does (no assumption on the tokens; also for
+   type_suffix, array_dimensions, func_params) *)
 Theorem C08_decl_dummy_pass_sound : forall f toks ty,
   sim_d (declarator f toks dummy) (declarator f toks ty).
 Proof. exact dummy_pass_sound. Qed.
@@ -129,56 +181,70 @@ Theorem C08_decl_abstract_dummy_pass_sound : forall f toks ty ty',
 Proof. exact abstract_independent_of_type. Qed.
 Print Assumptions C08_decl_abstract_dummy_pass_sound.
 
-(* ---- where parse.c is NOT C11 / psABI (each witness replayed on the real chibicc) ---- *)
+(* ---- the inputs on which the first version of this package refuted parse.c, on the model of the repaired code ---- *)
 
-(* `int ()` with the identifier omitted (an unnamed parameter of function type) is parsed as plain `int` *)
-Theorem C08_decl_abstract_func_refuted :
-  exists d m, c11_ok d = true /\ name_of d = None /\
-    parse_declarator (print_decl d ++ [TRParen]) (MBase LInt) = Ok (None, m, [TRParen]) /\
-    parse_abstract (print_decl d ++ [TRParen]) (MBase LInt) = Ok (m, [TRParen]) /\
-    shape m <> unqual (type_of (TLeaf LInt) d).
-Proof. exact abstract_func_refuted. Qed.
-Print Assumptions C08_decl_abstract_func_refuted.
+(* `int ()` with the identifier omitted (an unnamed parameter of function type) is a function now (was: int) *)
+Theorem C08_decl_abstract_func_repaired :
+  c11_ok d_unspec = true /\ name_of d_unspec = None /\
+  (exists m, parse_declarator (print_decl d_unspec ++ [TRParen]) (MBase LInt) = Ok (None, m, [TRParen]) /\
+             parse_abstract (print_decl d_unspec ++ [TRParen]) (MBase LInt) = Ok (m, [TRParen]) /\
+             shape m = unqual (type_of (TLeaf LInt) d_unspec)) /\
+  type_of (TLeaf LInt) d_unspec = TFun (TLeaf LInt) [] FNoProto.
+Proof. exact abstract_func_repaired. Qed.
+Print Assumptions C08_decl_abstract_func_repaired.
 
-(* void g(int ()) : the parameter is int instead of int ( * )() *)
-Theorem C08_decl_param_abstract_func_refuted :
+(* void g(int ()) : the parameter is int ( * )() *)
+Theorem C08_decl_param_abstract_func_repaired :
   c11_ok d_g_unspec = true /\
   (exists m, parse_declarator (print_decl d_g_unspec ++ [TOther]) (MBase LVoid) = Ok (Some 0%nat, m, [TOther]) /\
-     shape m = TFun (TLeaf LVoid) [TLeaf LInt] FProto) /\
+     shape m = unqual (type_of (TLeaf LVoid) d_g_unspec)) /\
   type_of (TLeaf LVoid) d_g_unspec = TFun (TLeaf LVoid) [TPtr [] (TFun (TLeaf LInt) [] FNoProto)] FProto.
-Proof. exact param_abstract_func_refuted. Qed.
-Print Assumptions C08_decl_param_abstract_func_refuted.
+Proof. exact param_abstract_func_repaired. Qed.
+Print Assumptions C08_decl_param_abstract_func_repaired.
 
-(* `int (int)` / `int (void)` with the identifier omitted: a valid declarator is rejected *)
-Theorem C08_decl_abstract_proto_rejected :
+(* `int (int)` / `int (void)` with the identifier omitted are accepted (were rejected) *)
+Theorem C08_decl_abstract_proto_accepted :
   let d1 := DDirect (DFunc (DIdent None) (PList (POne (Param LInt abs0)) false)) in
   let d2 := DDirect (DFunc (DIdent None) PVoid) in
   c11_ok d1 = true /\ c11_ok d2 = true /\
-  parse_declarator (print_decl d1 ++ [TRParen]) (MBase LInt) = Err /\
-  parse_declarator (print_decl d2 ++ [TRParen]) (MBase LInt) = Err /\
-  parse_abstract (print_decl d1 ++ [TRParen]) (MBase LInt) = Err.
-Proof. exact abstract_proto_rejected. Qed.
-Print Assumptions C08_decl_abstract_proto_rejected.
+  parse_declarator (print_decl d1 ++ [TRParen]) (MBase LInt)
+    = Ok (None, MFunc (MBase LInt) [(None, MBase LInt)] false, [TRParen]) /\
+  parse_declarator (print_decl d2 ++ [TRParen]) (MBase LInt) = Ok (None, MFunc (MBase LInt) [] false, [TRParen]) /\
+  parse_abstract (print_decl d1 ++ [TRParen]) (MBase LInt)
+    = Ok (MFunc (MBase LInt) [(None, MBase LInt)] false, [TRParen]).
+Proof. exact abstract_proto_accepted. Qed.
+Print Assumptions C08_decl_abstract_proto_accepted.
 
-(* char[4294967299] is char[3] *)
-Theorem C08_decl_big_bound_refuted :
-  exists d m, c11_ok d = true /\
-    parse_declarator (print_decl d ++ [TOther]) (MBase LChar) = Ok (None, m, [TOther]) /\
-    sizeof (type_of (TLeaf LChar) d) = Some 4294967299 /\ ty_size m = 3 /\
-    shape m = TArr (Some 3) (TLeaf LChar).
-Proof. exact big_bound_refuted. Qed.
-Print Assumptions C08_decl_big_bound_refuted.
+(* char[4294967299] (was char[3]), char x[2147483648] (was size -2147483648), int[70000][70000] (was -1874836480)
+   are rejected as too large *)
+Theorem C08_decl_big_arrays_rejected :
+  let d1 := DDirect (DArray (DIdent None) (Some 4294967299)) in
+  let d2 := DDirect (DArray (DIdent (Some 1%nat)) (Some 2147483648)) in
+  let d3 := DDirect (DArray (DArray (DIdent None) (Some 70000)) (Some 70000)) in
+  parse_declarator (print_decl d1 ++ [TOther]) (MBase LChar) = TooLarge /\ oversize d1 (TLeaf LChar) = true /\
+  parse_declarator (print_decl d2 ++ [TOther]) (MBase LChar) = TooLarge /\ oversize d2 (TLeaf LChar) = true /\
+  parse_declarator (print_decl d3 ++ [TOther]) (MBase LInt) = TooLarge /\ oversize d3 (TLeaf LInt) = true /\
+  sizeof (type_of (TLeaf LInt) d3) = Some 19600000000.
+Proof. exact big_arrays_rejected. Qed.
+Print Assumptions C08_decl_big_arrays_rejected.
 
-(* sizeof(int[70000][70000]) is -1874836480: sizes of 2 GiB and more are wrong *)
-Theorem C08_decl_size_overflow_refuted :
-  exists d m, c11_ok d = true /\ chibicc_ok d = true /\
-    parse_declarator (print_decl d ++ [TOther]) (MBase LInt) = Ok (None, m, [TOther]) /\
-    shape m = type_of (TLeaf LInt) d /\
-    sizeof (type_of (TLeaf LInt) d) = Some 19600000000 /\ ty_size m = -1874836480.
-Proof. exact size_overflow_refuted. Qed.
-Print Assumptions C08_decl_size_overflow_refuted.
+(* the limit is sharp: char[2147483647] and int[536870911] are accepted with the right size, int[536870912] is not;
+   a parameter's array is tested before its adjustment; a zero-sized element counts as one byte *)
+Theorem C08_decl_limit_is_sharp :
+  parse_declarator (print_decl (DDirect (DArray (DIdent None) (Some 2147483647))) ++ [TOther]) (MBase LChar)
+    = Ok (None, MArr (MBase LChar) 2147483647 2147483647 1, [TOther]) /\
+  parse_declarator (print_decl (DDirect (DArray (DIdent None) (Some 536870911))) ++ [TOther]) (MBase LInt)
+    = Ok (None, MArr (MBase LInt) 536870911 2147483644 4, [TOther]) /\
+  parse_declarator (print_decl (DDirect (DArray (DIdent None) (Some 536870912))) ++ [TOther]) (MBase LInt) = TooLarge /\
+  parse_declarator (print_decl (DDirect (DFunc (DIdent (Some 0%nat))
+       (PList (POne (Param LInt (DDirect (DArray (DIdent (Some 1%nat)) (Some 3000000000))))) false))) ++ [TOther]) (MBase LVoid)
+    = TooLarge /\
+  parse_declarator (print_decl (DDirect (DArray (DIdent None) (Some 3000000000))) ++ [TOther]) (MBase (LAgg 0 1)) = TooLarge /\
+  oversize (DDirect (DArray (DIdent None) (Some 3000000000))) (TLeaf (LAgg 0 1)) = true.
+Proof. exact limit_is_sharp. Qed.
+Print Assumptions C08_decl_limit_is_sharp.
 
-(* ---- non-vacuity: int ( * ( *x[3])(int, char * ))[5], and the type name  struct{16,8} ( *[2])[7] ---- *)
+(* ---- non-vacuity: int ( * ( * const x[3])(int, char *p1[]))[5], and the type name  struct{16,8} ( *[2])[7] ---- *)
 Definition ex_d : decl :=
   DDirect (DArray (DParen (DPtr [] (DDirect (DFunc
     (DParen (DPtr [QConst] (DDirect (DArray (DIdent (Some 7%nat)) (Some 3)))))
@@ -186,7 +252,8 @@ Definition ex_d : decl :=
     (Some 5)).
 
 Example C08_decl_nonvacuous :
-  c11_ok ex_d = true /\ chibicc_ok ex_d = true /\ fits (type_of (TLeaf LInt) ex_d) = true /\
+  c11_ok ex_d = true /\ elems_ok ex_d (TLeaf LInt) = true /\ oversize ex_d (TLeaf LInt) = false /\
+  chk ex_d (MBase LInt) = true /\
   type_of (TLeaf LInt) ex_d
   = TArr (Some 3) (TPtr [QConst] (TFun (TPtr [] (TArr (Some 5) (TLeaf LInt)))
                                        [TLeaf LInt; TPtr [] (TPtr [] (TLeaf LChar))] FProto)) /\
@@ -201,7 +268,7 @@ Print Assumptions C08_decl_nonvacuous.
 
 Example C08_decl_nonvacuous_typename :
   let d := DPtr [] (DDirect (DArray (DParen (DPtr [] (DDirect (DArray (DIdent None) (Some 2))))) (Some 7))) in
-  c11_ok d = true /\ chibicc_ok d = true /\ name_of d = None /\
+  c11_ok d = true /\ name_of d = None /\ elems_ok d (TLeaf (LAgg 16 8)) = true /\ oversize d (TLeaf (LAgg 16 8)) = false /\
   type_of (TLeaf (LAgg 16 8)) d = TArr (Some 2) (TPtr [] (TArr (Some 7) (TPtr [] (TLeaf (LAgg 16 8))))) /\
   sizeof (type_of (TLeaf (LAgg 16 8)) d) = Some 16 /\
   sizeof (TArr (Some 7) (TPtr [] (TLeaf (LAgg 16 8)))) = Some 56 /\
@@ -213,12 +280,14 @@ Print Assumptions C08_decl_nonvacuous_typename.
 Example C08_decl_nonvacuous_unparse :
   let t := TArr (Some 3) (TPtr [QConst] (TFun (TPtr [] (TArr (Some 5) (TLeaf LInt)))
                                               [TLeaf LInt; TPtr [] (TPtr [] (TLeaf LChar))] FVariadic)) in
-  valid_ty t = true /\ small t = true /\
+  valid_ty t = true /\
   print_decl (snd (declarator_of t (Some 7%nat)))
   = [TLParen; TStar; TLParen; TStar; TQual QConst; TIdent 7%nat; TLBrack; TNum 3; TRBrack; TRParen;
      TLParen; TBase LInt; TComma; TBase LChar; TStar; TStar; TComma; TEllipsis; TRParen; TRParen;
      TLBrack; TNum 5; TRBrack] /\
-  fst (declarator_of t (Some 7%nat)) = LInt.
+  fst (declarator_of t (Some 7%nat)) = LInt /\
+  (* a function type without identifier: int ( * )(void) inside, int (int) outside *)
+  print_decl (snd (declarator_of (TFun (TLeaf LInt) [TLeaf LInt] FProto) None)) = [TLParen; TBase LInt; TRParen].
 Proof. vm_compute. repeat split; reflexivity. Qed.
 Print Assumptions C08_decl_nonvacuous_unparse.
 
@@ -229,7 +298,8 @@ Example C08_decl_nonvacuous_with_layout :
                                    {| m_size := 8; m_align := 8; m_bf := None; m_named := true |} ] in
   let S := LAgg (Z.of_N (l_size L)) (Z.of_N (l_align L)) in
   let d := DDirect (DArray (DParen (DPtr [] (DDirect (DArray (DIdent (Some 0%nat)) (Some 2))))) (Some 3)) in
-  S = LAgg 16 8 /\ c11_ok d = true /\ chibicc_ok d = true /\ fits (type_of (TLeaf S) d) = true /\
+  S = LAgg 16 8 /\ c11_ok d = true /\ leaf_in_range S = true /\ elems_ok d (TLeaf S) = true /\
+  oversize d (TLeaf S) = false /\
   sizeof (type_of (TLeaf S) d) = Some 16 /\
   parse_declarator (print_decl d ++ [TOther]) (MBase S)
   = Ok (Some 0%nat, MArr (MPtr (MArr (MBase (LAgg 16 8)) 3 48 8)) 2 16 8, [TOther]).
